@@ -669,7 +669,7 @@ def R_pos(ex):
 
 # ---------------------------------------------------------------------- discharge
 PURE_LEAF_CALLS = ("len", "count", "min", "max", "from", "into", "saturating_sub", "saturating_add", "wrapping_sub",
-                   "wrapping_add", "leading_zeros", "clone", "unwrap_or", "size_of", "deref", "as_ref", "borrow",
+                   "wrapping_add", "leading_zeros", "clone", "unwrap_or", "unwrap_or_default", "copied", "cloned", "size_of", "deref", "as_ref", "borrow",
                    "to_owned", "abs_diff", "capacity", "as_bytes", "as_slice", "as_str", "index", "start", "end")
 
 
@@ -823,10 +823,14 @@ def _call_interval(ex, body, depth):
             return (max(a[0], b[0]), max(a[1], b[1]))
         if name in ("from", "into") and len(args) == 1:
             return interval(args[0], body, depth + 1)
-        if name in ("leading_zeros", "trailing_zeros", "leading_ones", "count_ones", "count_zeros"):
-            return (0, 128)
+        if name in ("leading_zeros", "trailing_zeros", "leading_ones", "trailing_ones", "count_ones", "count_zeros"):
+            m = re.search(r"impl ([iu](?:8|16|32|64|128|size))>", ex[1] or "")
+            bits = {"8": 8, "16": 16, "32": 32, "64": 64, "128": 128, "size": 64}.get(m.group(1)[1:], 128) if m else 128
+            return (0, bits)
         if name == "saturating_sub" and len(args) == 2:
             a, b = interval(args[0], body, depth + 1), interval(args[1], body, depth + 1)
+            if a[0] >= 0 and b[0] >= 0:
+                return (max(0, a[0] - b[1]), max(0, a[1] - b[0]))
             return (max(0, a[0] - b[1]) if a[0] >= 0 else a[0] - b[1], a[1])
         if name == "size_of":
             return (0, 2 ** 16)
